@@ -132,6 +132,36 @@ def structured_cases(rng: random.Random, n: int):
     return out
 
 
+def mw_cases(rng: random.Random, n: int):
+    """multi-world joints (gen_expr.struct_mw_*): leaves whose children share a base variable across worlds / value marks,
+    under Sums in every relation between the ranges and the duplicated / single bases, systematically x {P, PP} x
+    wrapper; bare multi-world leaves in products and fractions; multi-world leaves with distinct bases"""
+    out = []
+    for mode in GE.MW_MODES:
+        for pop in (False, GE.POPS[0]):
+            for wrap in ("none", "prod", "num", "den", "sum"):
+                for _ in range(max(1, n // 350)):
+                    nn = rng.choice([3, 4, 4, 5])
+                    e, lab = GE.struct_mw_sum(rng, nn, mode=mode, pop=pop, wrap=wrap)
+                    out.append({"kind": "canon", "e": e, "ordering": _rand_ordering_choice(rng, e, nn),
+                                "seed": rng.randrange(1 << 30), "gen": lab})
+    while len(out) < n:
+        nn = rng.choice([3, 4, 4, 5])
+        e, lab = GE.struct_mw_expr(rng, nn)
+        r = rng.random()
+        if r < 0.78:
+            out.append({"kind": "canon", "e": e, "ordering": _rand_ordering_choice(rng, e, nn),
+                        "seed": rng.randrange(1 << 30), "gen": lab})
+        elif r < 0.88:
+            out.append({"kind": "equal", "a": e, "b": GE.present_shuffle(rng, e), "seed": rng.randrange(1 << 30),
+                        "gen": "shuffle:" + lab})
+        elif r < 0.94:
+            out.append({"kind": "den", "e": e, "seed": rng.randrange(1 << 30), "gen": lab})
+        else:
+            out.append({"kind": "wsw", "e": e, "gen": lab})
+    return out
+
+
 def cases(rng: random.Random, tier: str):
     return [F.assign(c, _slots(c)) for c in _cases(rng, tier)]
 
@@ -142,6 +172,7 @@ def _cases(rng: random.Random, tier: str):
     out = _load_corpus()
     out += structured_cases(rng, 3000 if tier == "quick" else 15000)
     out += random_cases(rng, 5000 if tier == "quick" else 65000)
+    out += mw_cases(rng, 1000 if tier == "quick" else 8000)     # appended: the streams above keep their distribution
     return out
 
 
@@ -167,8 +198,10 @@ def random_cases(rng: random.Random, n: int):
             out.append({"kind": "equal", "a": e, "b": b, "seed": rng.randrange(1 << 30)})
         elif r < 0.96:
             out.append({"kind": "den", "e": e, "seed": rng.randrange(1 << 30)})
-        else:
+        elif r < 0.98:
             out.append({"kind": "ws", "e": e})
+        else:
+            out.append({"kind": "wsw", "e": e})
     return out
 
 
@@ -198,12 +231,23 @@ ERRS = (KeyError, TypeError, ZeroDivisionError, ValueError, AttributeError, Inde
 
 
 def _in_quantifier(e, ordering):
-    """is (e, ordering) inside the quantifier of C10: well-scoped, denominators free of Zero(), ordering covering"""
-    if not (GE.well_scoped(e) and GE.zero_free_denominators(e)):
+    """is (e, ordering) inside the quantifier of C10: well-scoped, denominators free of Zero(), ordering covering.
+    "narrow": single-world leaves with distinct names (WellScoped: DenNZ follows from positivity of the environment);
+    "wide": WellScopedW only (multi-world joints, shared base variables): a denominator can vanish at a conflicting
+    valuation even in a positive family, so the oracle checks DenNZ itself (expr_eval.den_nonzero); False: outside."""
+    if not (GE.well_scoped_mw(e) and GE.zero_free_denominators(e)):
         return False
     if ordering is not None and not GE.event_names(e) <= {int(v[1]) for v in ordering}:
         return False
-    return True
+    return "narrow" if GE.well_scoped(e) else "wide"
+
+
+def _identity(E, a, b, rng, inq, both=False):
+    """the oracle: narrow class = 2 generic positive families x 3 valuations; wide class = the same under the DenNZ guard
+    plus one random FUNCTIONAL SCM per population (the semantics of multi-world joints)"""
+    if inq == "wide":
+        return E.identity_test(a, b, rng, n_envs=2, n_sigma=3, shared=True, guard_nz="both" if both else True, n_fscm=1)
+    return E.identity_test(a, b, rng, n_envs=2, n_sigma=3, shared=True)
 
 
 def _tags(e, extra=None, case=None, feats=True):
@@ -253,16 +297,20 @@ def run_python(case):
         except ERRS as ex:
             c = None
             out = ["err"]
-            if inq:
+            if inq == "narrow":
                 fail = f"canonicalize raised {type(ex).__name__} on a well-scoped expression with a covering ordering"
+            elif inq == "wide" and not isinstance(ex, ZeroDivisionError):
+                # (a denominator of a wide expression may canonicalise to Zero only when DenNZ fails: not judged)
+                fail = f"canonicalize raised {type(ex).__name__} on a well-scoped multi-world expression with a covering ordering"
         if c is not None and inq:
-            w = E.identity_test(e, c, rng, n_envs=2, n_sigma=3, shared=True)
+            w = _identity(E, e, c, rng, inq)
             if w is not None:
                 fail = f"canonical form {c} denotes a different function than {e}: {json.dumps(w, sort_keys=True)}"
         nontrivial = bool(c is not None and GE.depth(enc) >= 3 and ("sum" in GE.constructors(enc) or "frac" in GE.constructors(enc))
                           and X.to_str_tree(enc) != out[1])
         return {"out": out, "fail": fail, "nontrivial": nontrivial,
-                "tags": _tags(enc, {"kind": kind, "outcome": out[0], "judged": inq,
+                "tags": _tags(enc, {"kind": kind, "outcome": out[0], "judged": bool(inq), "judged_wide": inq == "wide",
+                                    "shared_base": GE.has_shared_base(enc), "multiworld": GE.is_multiworld(enc),
                                     "ordering": "none" if case["ordering"] is None else "explicit",
                                     **F.tags(_forms(case))}, case)}
     if kind == "equal":
@@ -274,14 +322,18 @@ def run_python(case):
         except ERRS:
             r = None
             out = ["err"]
-        if r and _in_quantifier(case["a"], None) and _in_quantifier(case["b"], None):
-            w = E.identity_test(a, b, rng, n_envs=2, n_sigma=3, shared=True)
+        qa, qb = _in_quantifier(case["a"], None), _in_quantifier(case["b"], None)
+        if r and qa and qb:
+            w = _identity(E, a, b, rng, "wide" if "wide" in (qa, qb) else "narrow", both=True)
             if w is not None:
                 fail = f"canonical_expr_equal({a}, {b}) is True but the expressions differ: {json.dumps(w, sort_keys=True)}"
         return {"out": out, "fail": fail, "nontrivial": bool(r) and case["a"] != case["b"],
                 "tags": _tags(case["a"], {"kind": kind, "outcome": out[0] if r is None else out[1], **F.tags(_forms(case))}, case)}
     if kind == "ws":   # the quantifier predicate itself: Python mirror vs Lean `WellScoped`
         return {"out": ["ok", "true" if GE.well_scoped(case["e"]) else "false"], "fail": None, "nontrivial": False,
+                "tags": _tags(case["e"], {"kind": kind})}
+    if kind == "wsw":  # the widened quantifier: Python mirror vs Lean `WellScopedW`
+        return {"out": ["ok", "true" if GE.well_scoped_mw(case["e"]) else "false"], "fail": None, "nontrivial": False,
                 "tags": _tags(case["e"], {"kind": kind})}
     if kind == "den":
         val, _ = _den_python(case)
@@ -331,6 +383,8 @@ def request(case):
         return C.enc(["expr", "canonical_equal", case["a"], case["b"]])
     if kind == "ws":
         return C.enc(["expr", "well_scoped", case["e"]])
+    if kind == "wsw":
+        return C.enc(["expr", "well_scoped_mw", case["e"]])
     if kind == "den":
         if any(isinstance(t, list) and t[0] == "Q" for t in GE.subterms(case["e"])):
             return None
